@@ -142,6 +142,17 @@ impl<C> Server<C> {
     }
 }
 
+#[cfg(feature = "verif_hooks")]
+impl<C> Server<C> {
+    /// Verification hook: simulates the passage of `secs` seconds for
+    /// the response rate-limiter (if one is configured).
+    pub fn verif_rrl_shift_time(&self, secs: u64) {
+        if let Some(ref rrl) = self.rrl {
+            rrl.verif_shift_time(secs);
+        }
+    }
+}
+
 impl<C> Server<C>
 where
     C: Catalog,
